@@ -299,7 +299,7 @@ func (r *run) allocLen(t *Term, typ types.Type, at ssa.Instruction) int {
 		if r.eng.maxAlloc > 0 && n > int64(r.eng.maxAlloc) && r.allocWatch {
 			r.violation("alloc", "alloc-limit", fmt.Sprintf("allocation of %d elements at %s", n, r.eng.pos(at.Pos())))
 		}
-		if n > 1<<24 {
+		if n > 1<<25 {
 			panic(engineError{fmt.Sprintf("concrete allocation of %d elements", n)})
 		}
 		return int(n)
